@@ -26,6 +26,8 @@ import Golib.Conf.SysHist
 import Golib.Conf.KeyBackslash
 import Golib.Conf.KeyFull
 import Golib.Conf.LiftLines
+import Golib.Conf.OwnWrite
+import Golib.Conf.Api
 
 namespace C18
 open Conf
@@ -423,6 +425,151 @@ theorem finding_reset_gap :
     s.w = .done ∧ s.r = .done ∧ s.obs = [none] ∧
     s.obs ≠ reads.map (lookup old) ∧ s.obs ≠ reads.map (lookup (storeAll old (.clear :: storesOf dflt))) := by decide
 
+/-! ## the rest of the exported API -/
+
+/-- **which file**: `$WHATAP_CONFIG_HOME` beats the WithHomePath option, which beats `$WHATAP_HOME`, which
+    beats "."; the name is `$WHATAP_CONFIG` or "whatap.conf" (GetConfFile joins the two) -/
+theorem conf_file_precedence (homeOpt envHome envConfHome envConfName : Str) :
+    (envConfHome ≠ [] → (confFileParts homeOpt envHome envConfHome envConfName).1 = envConfHome) ∧
+    (envConfHome = [] → homeOpt ≠ [] → (confFileParts homeOpt envHome envConfHome envConfName).1 = homeOpt) ∧
+    (envConfHome = [] → homeOpt = [] → envHome ≠ [] → (confFileParts homeOpt envHome envConfHome envConfName).1 = envHome) ∧
+    (envConfHome = [] → homeOpt = [] → envHome = [] → (confFileParts homeOpt envHome envConfHome envConfName).1 = ['.']) ∧
+    (confFileParts homeOpt envHome envConfHome envConfName).2 = (if envConfName = [] then "whatap.conf".toList else envConfName) := by
+  refine ⟨?_, ?_, ?_, ?_, ?_⟩
+  · intro h
+    cases envConfHome with
+    | nil => exact absurd rfl h
+    | cons a b => rfl
+  · intro h1 h2; subst h1
+    cases homeOpt with
+    | nil => exact absurd rfl h2
+    | cons a b => rfl
+  · intro h1 h2 h3; subst h1; subst h2
+    cases envHome with
+    | nil => exact absurd rfl h3
+    | cons a b => rfl
+  · intro h1 h2 h3; subst h1; subst h2; subst h3; rfl
+  · cases envConfName with
+    | nil => rfl
+    | cons a b => rfl
+
+/-- **ApplyConfig(map)** stores every entry — empty values included — and nothing else changes: an
+    assigned key reads back through GetValue (trimmed, never the environment), any other key answers as
+    before; the remembered stamp and the notification count stay -/
+theorem applyConfig_spec (c : Cfg) (kvs env : KV) (hn : KeysNodup kvs) :
+    (∀ k v, (k, v) ∈ kvs → getValue (applyConfig c kvs).m env k = trimSpace v) ∧
+    (∀ k, (∀ p ∈ kvs, p.1 ≠ k) → getValue (applyConfig c kvs).m env k = getValue c.m env k) ∧
+    (applyConfig c kvs).last = c.last ∧ (applyConfig c kvs).notified = c.notified := by
+  refine ⟨?_, ?_, rfl, rfl⟩
+  · intro k v h
+    simp [getValue, applyConfig, lookup_mergeAll_mem c.m kvs k v hn h]
+  · intro k h
+    simp [getValue, applyConfig, lookup_mergeAll_skip c.m kvs k h]
+
+example : getValue (applyConfig ⟨[(['a'], ['1'])], (5, 3), 2⟩ [(['a'], []), (['b'], [' ', 'x'])]).m [(['a'], ['e'])] ['a'] = [] := by decide
+
+/-- **ApplyDefault** is ApplyConfig of the defaults table: every default key reads its default, every
+    other key is untouched -/
+theorem applyDefault_spec (c : Cfg) (env : KV) :
+    (∀ k v, (k, v) ∈ defaults → getValue (applyDefault c).m env k = trimSpace v) ∧
+    (∀ k, (∀ p ∈ defaults, p.1 ≠ k) → getValue (applyDefault c).m env k = getValue c.m env k) :=
+  ⟨(applyConfig_spec c defaults env keysNodup_defaults).1, (applyConfig_spec c defaults env keysNodup_defaults).2.1⟩
+
+/-- **String() / ToString()** list every entry of the map as `key=value` with the value as stored -/
+theorem string_lists_every_entry (m : KV) (k v : Str) (h : lookup m k = some v) :
+    (k ++ '=' :: v) ∈ showLines m ∧ (showLines m).length = m.length :=
+  ⟨mem_showLines m k v (mem_of_lookup m k v h), by simp [showLines]⟩
+
+/-- **InArray**: membership up to `strings.TrimSpace` on both sides -/
+theorem inArray_spec (s : Str) (list : List Str) :
+    inArray s list = true ↔ ∃ it ∈ list, trimSpace it = trimSpace s :=
+  inArray_iff s list
+
+example : inArray [' ', 'a'] [['b'], ['a', '\n']] = true ∧ inArray ['a'] [['A'], ['a', ' ', 'b']] = false := by decide
+
+/-- **GetStringArray**: nothing for an empty value-or-default, else the tokens (cut at any delimiter
+    character, empty tokens dropped), each trimmed -/
+theorem getStringArray_spec (m env : KV) (k d deli : Str) :
+    getStringArray m env k d deli =
+      if (getValueDef m env k d).isEmpty then [] else (tokenizer (getValueDef m env k d) deli).map trimSpace := rfl
+
+example : getStringArray [(['k'], " a, b ;;c ".toList)] [] ['k'] [] ",;".toList = [['a'], ['b'], ['c']] := by decide
+
+/-! ## the object's own write-back, seen by the next reload -/
+
+/-- SetValues changes the file only: the in-memory map, the remembered stamp and the observer registry
+    stay as they are (the written values become visible through the next reload, not before) -/
+theorem setvalues_changes_the_file_only (keep : Bool) (pre suf : Str) (excl : List Str) (s : Sys) (now : Int) (kvs : KV) :
+    (s.setValues keep pre suf excl now kvs).cfg = s.cfg ∧ (s.setValues keep pre suf excl now kvs).obs = s.obs :=
+  setValues_frame keep pre suf excl s now kvs
+
+/-- **own write is loaded**: a reload has looked at the file `f`; the object writes `text` back — a new
+    file, stamped with the clock time `now` of the write — and the clock is not at `f`'s modification
+    time; the next reload loads it, notifies, and every key=value of `text` is visible — whether or not
+    the write changed the size of the file (same-length replacement, lengths that cancel out, …) -/
+theorem own_write_is_loaded (c : Cfg) (f : FileSt) (now : Int) (text : Str) (props : KV)
+    (hnow : now ≠ f.mtimeNs) (hp : parseProps text = .ok props) :
+    let c1 := (reload verFull c (some f)).1
+    let f' := writeBackFile false now f text
+    (reload verFull c1 (some f')).2 = .loaded ∧
+    (reload verFull c1 (some f')).1.notified = c1.notified + 1 ∧
+    Reflects (reload verFull c1 (some f')).1 text :=
+  own_write_loaded c f now text props hnow hp
+
+/-- non-vacuity: `trace_rate=10` loaded, `25` written 50 ms later (same size), reload: 25 -/
+example :
+    let f : FileSt := ⟨1700000000000000000, "# s\ntrace_rate=10\n".toList⟩
+    let c1 := (reload verFull Cfg.init (some f)).1
+    lookup (reload verFull c1 (some (writeBackFile false 1700000000050000000 f "# s\ntrace_rate=25\n".toList))).1.m
+      "trace_rate".toList = some "25".toList := by decide
+
+/-- **written values read back through the getters** (write-back merge + reload, end to end): a
+    well-formed file, loaded at any earlier point; assignments `M` (well-formed keys and values, no key
+    twice) written by `DefaultFileParser.Write` at a clock time different from the file's modification
+    time; one reload: `GetValue` of every assigned non-blank key answers the assigned value (trimmed) -/
+theorem written_value_read_back (infos : List LineInfo) (M : KV) (hwf : WFprops infos) (hM : PropsWF M)
+    (hn : KeysNodup M) (k v : Str) (hkv : (k, v) ∈ M) (hv : isBlankVal v = false)
+    (c : Cfg) (env : KV) (mt now : Int) (hnow : now ≠ mt)
+    (out : WriteOut) (hw : writeModel true (textOf infos) M = some out) (hx : parseProps out.text ≠ .expansion) :
+    let f : FileSt := ⟨mt, textOf infos⟩
+    let c1 := (reload verFull c (some f)).1
+    getValue (reload verFull c1 (some (writeBackFile false now f out.text))).1.m env k = trimSpace v :=
+  written_value_visible infos M hwf hM hn k v hkv hv c env mt now hnow out hw hx
+
+/-- the same after an **arbitrary history** of the whole system (edits, deletions, reloads,
+    registrations, panicking observers): the file exists, a reload runs, the object writes back
+    (SetValues with prefix / suffix / exclusions) at a clock time different from the file's modification
+    time, a reload runs: the file is the written one, the configuration reflects it, exactly one more
+    notification round ran over the registry as it was -/
+theorem own_write_after_any_history (nr : Bool) (ops : List SysOp) (f : FileSt) (now : Int)
+    (pre suf : Str) (excl : List Str) (kvs : KV) (out : WriteOut) (props : KV)
+    (hf : (Sys.init.run nr ops).file = some f)
+    (hs : setValuesModel true pre suf excl f.text kvs = some out)
+    (hp : parseProps out.text = .ok props) (hnow : now ≠ f.mtimeNs) :
+    let s1 := (Sys.init.run nr ops).step nr .reload
+    let s2 := (s1.setValues false pre suf excl now kvs).step nr .reload
+    s2.file = some (writeBackFile false now f out.text) ∧
+    Reflects s2.cfg out.text ∧ s2.cfg.notified = s1.cfg.notified + 1 ∧ s2.obs = s1.obs.run :=
+  own_write_after_history nr ops f now pre suf excl kvs out props hf hs hp hnow
+
+/-- non-vacuity: edit, reload, registration, same-length SetValues under a prefix, reload -/
+example :
+    let f : FileSt := ⟨1700000000000000000, "p.rate=10\n".toList⟩
+    let s1 := (Sys.init.run true [.edit f, .reload, .addObs "o".toList 1]).step true .reload
+    let s2 := (s1.setValues false "p.".toList [] [] 1700000000050000000 [("rate".toList, "25".toList)]).step true .reload
+    lookup s2.cfg.m "p.rate".toList = some "25".toList ∧ s2.obs.counts = [(1, 1)] := by decide
+
+/-- … whereas a write-back that carries the modification time of the replaced file over to the
+    replacement (`os.Chtimes(tmp, st.ModTime(), …)` before the rename) hides every size-preserving
+    write from reload: the answer is "same", the getters keep the old value for ever, nobody is told -/
+theorem finding_stamp_carried_over :
+    let f : FileSt := ⟨1700000000000000000, "# s\ntrace_rate=10\n".toList⟩
+    let c1 := (reload verFull Cfg.init (some f)).1
+    let f' := writeBackFile true 1700000000050000000 f "# s\ntrace_rate=25\n".toList
+    (reload verFull c1 (some f')).2 = .same ∧
+    lookup (reload verFull c1 (some f')).1.m "trace_rate".toList = some "10".toList ∧
+    (reload verFull c1 (some f')).1.notified = c1.notified := by decide
+
 /-! ## write-back -/
 
 /-- **Write-back merge** (the part of the property the code satisfies; full statement: for *all*
@@ -602,6 +749,33 @@ example : WFprops [(['#', 'x', '=', '1', '=', '2'], none), ([], none),
   · subst h; exact empty_skipline
   · subst h
     exact renderKV_kvline _ _ ⟨by decide, by decide⟩ ⟨by decide, by decide, by simp [NoAdjBs], by decide⟩
+
+/-- non-vacuity of `written_value_read_back`: the file above, loaded at time 5; `k=9` and `n=t ` written at
+    time 6; after the reload GetValue("n") is the written value, trimmed -/
+example :
+    let infos : List LineInfo := [(['#', 'x', '=', '1', '=', '2'], none), ([], none),
+                   (renderKV ['k'] ['v', ' ', 'w'], some (['k'], ['v', ' ', 'w']))]
+    let f : FileSt := ⟨5, textOf infos⟩
+    getValue (reload verFull (reload verFull Cfg.init (some f)).1
+      (some (writeBackFile false 6 f (WriteOut.text ⟨[['#', 'x', '=', '1', '=', '2'], [], ['k', '=', '9']], [['n', '=', 't', ' ']]⟩)))).1.m
+      [] ['n'] = ['t'] := by
+  intro infos f
+  have hwf : WFprops infos := by
+    intro li hli
+    simp only [infos, List.mem_cons, List.not_mem_nil, or_false] at hli
+    rcases hli with h | h | h
+    · subst h; exact hash_comment_skipline _ (by unfold NoBreak; decide)
+    · subst h; exact empty_skipline
+    · subst h
+      exact renderKV_kvline _ _ ⟨by decide, by decide⟩ ⟨by decide, by decide, by simp [NoAdjBs], by decide⟩
+  have hM : PropsWF [(['k'], ['9']), (['n'], ['t', ' '])] := by
+    intro p hp
+    simp only [List.mem_cons, List.not_mem_nil, or_false] at hp
+    rcases hp with h | h <;> subst h
+    · exact ⟨⟨by decide, by decide⟩, Or.inr ⟨by decide, by decide, by simp [NoAdjBs], by decide⟩⟩
+    · exact ⟨⟨by decide, by decide⟩, Or.inr ⟨by decide, by decide, by simp [NoAdjBs], by decide⟩⟩
+  exact written_value_read_back infos _ hwf hM (by unfold KeysNodup; decide) ['n'] ['t', ' '] (by simp) (by decide)
+    Cfg.init [] 5 6 (by decide) _ (by decide) (by decide)
 
 /-- the usual hand-written shape `key = value` (any number of blanks around '=') is a
     well-formed line, as are `#…` comments (whatever they contain) and empty lines -/
